@@ -274,6 +274,12 @@ def R3_predicates(ctx):
                 pay = agg_payload(r.ret)
                 expl = pay[0] == "agg" and pay[2] == "QueryTerminated" and calls_in(pay, TM + "::explain_termination")
                 runtime_fallback = pay[0] == "agg" and pay[2] == "RuntimeError"
+                if not expl and pay[0] == "call" and re.search(r"Option::<T>::(map_or_else|map_or)$", pay[1].split("{")[0]) and len(pay[2]) == 3:
+                    # explain_termination(..).map_or_else(|| RuntimeError(..), QueryTerminated): the same two cases as a combinator
+                    recv_, dflt_, mapper_ = pay[2]
+                    mp_ok = "QueryTerminated" in repr(mapper_) or (mapper_[0] == "closure" and mapper_[1] in F.bodies and "QueryTerminated" in repr(clean(Terms(F.bodies[mapper_[1]]).return_term())))
+                    df_ok = "RuntimeError" in repr(dflt_) or (dflt_[0] == "closure" and dflt_[1] in F.bodies and "RuntimeError" in repr(clean(Terms(F.bodies[dflt_[1]]).return_term())))
+                    expl = bool(calls_in(recv_, TM + "::explain_termination")) and mp_ok and df_ok
                 ctx.check(bool(expl) or runtime_fallback, "test:explanation", "the error does not carry explain_termination(): %s" % short(pay), tb.where())
         elif truth is False:
             n_ok += 1
